@@ -271,6 +271,7 @@ Init ==
   /\ lastrep = [i \in Instrs |-> [r \in Readers |-> [has |-> FALSE, m |-> Empty]]]
   /\ pushed = [i \in Instrs |-> FALSE]
   /\ clock = 0 /\ ncol = 0 /\ nrec = 0 /\ flags = {}
+  /\ \A k \in 11..20 : TLCSet(k, 0)                     \* vacuity registers (see VacProbe)
   /\ curreps = [c \in Cbs |-> Empty]
   /\ hist = IF Hist THEN <<[op |-> "Cfg", kinds |-> kinds, temps |-> temps, cbi |-> cbi, na |-> NA]>> ELSE <<>>
 
@@ -405,11 +406,41 @@ GaugeIsLatest ==
      /\ \A a \in DOMAIN O(i) : a \in DOMAIN tot[i] /\ O(i)[a] = tot[i][a]
      /\ \A a \in (IF kinds[i] = "sgauge" THEN fresh[cr][i] ELSE repnow[i]) : a \in DOMAIN O(i)
 
+(* vacuity guard: the antecedents of the clauses are reachable.  Run with ONE worker on a small
+   configuration: VacProbe is an always-true "invariant" that notes which conditions were seen,
+   VacReport (POSTCONDITION) prints them. *)
+VacConds == <<
+  \* 1 a cumulative reader's second-or-later delivery of a total reported now
+  PreEnd /\ \E i \in Instrs : IsSum(kinds[i]) /\ temps[cr] = "c" /\ repnow[i] # {} /\ lastrep[i][cr].has,
+  \* 2 a delta reader is given a non-zero difference from its own previous delivery
+  PreEnd /\ \E i \in Instrs : DeltaSum(cr, i) /\ \E a \in repnow[i] : a \in DOMAIN given[cr][i] /\ tot[i][a] # given[cr][i][a],
+  \* 3 the same while another reader's delivery lies in between (totals as of the two differ)
+  PreEnd /\ \E i \in Instrs : DeltaSum(cr, i) /\ \E a \in repnow[i], q \in Readers :
+              q # cr /\ DeltaSum(q, i) /\ a \in DOMAIN given[cr][i] /\ a \in DOMAIN given[q][i] /\ given[q][i][a] # given[cr][i][a],
+  \* 4 an observable gauge reports a value different from the one before
+  PreEnd /\ \E i \in Instrs : kinds[i] = "ogauge" /\ \E a \in repnow[i] : a \in DOMAIN O(i) /\ lastrep[i][cr].has /\ a \in DOMAIN lastrep[i][cr].m /\ lastrep[i][cr].m[a].v # tot[i][a],
+  \* 5 a synchronous gauge recorded since the reader's last collection
+  PreEnd /\ \E i \in Instrs : kinds[i] = "sgauge" /\ fresh[cr][i] # {},
+  \* 6 callbacks are being invoked while another one of a live instrument is not registered
+  cr # 0 /\ todo # {} /\ \E c \in Cbs : c \notin reg /\ cbi[c] \in alive,
+  \* 7 a collection while a destroyed instrument's callback exists
+  cr # 0 /\ \E c \in Cbs : cbi[c] \notin alive,
+  \* 8 a set that was reported earlier is not reported in this collection
+  PreEnd /\ \E i \in Instrs : IsObs(kinds[i]) /\ DOMAIN tot[i] \ repnow[i] # {} >>
+NVac == 8
+VacProbe == \A k \in 1..NVac : VacConds[k] => TLCSet(10 + k, 1)
+VacReport == PrintT(<<"VAC", ToJson([k \in 1..NVac |-> TLCGet(10 + k)])>>)
+
 (* ======================= behaviour export ======================= *)
 View == bvars
 JustEnded == cr = 0 /\ Len(hist) > 1 /\ hist[Len(hist)].op = "Collect"
 \* complete behaviours (the MaxCol-th collection has finished; nothing is enabled afterwards)
 EmitAll == (JustEnded /\ ncol = MaxCol) => PrintT(<<"BEH", ToJson(hist)>>)
+\* shaping of RANDOM WALKS only (ACTION_CONSTRAINT of the simulate cfg; never used when model checking):
+\* uniform choice among successors would destroy every instrument within a few steps
+GenShape ==
+  /\ (alive' # alive) => (2 * ncol >= MaxCol /\ Cardinality(alive') + 1 >= Cardinality(ObsInstrs(kinds)))
+  /\ (cr = 0 /\ cr' = 0 /\ reg' = reg /\ alive' = alive /\ nrec' = nrec) => F("rem_noop") \notin flags
 \* witness idiom: print one shortest behaviour in which the rare condition was seen, then stop
 Wit(f) == (F(f) \in flags /\ JustEnded) => (PrintT(<<"BEH", ToJson(hist)>>) /\ FALSE)
 WitCollectAfterRem     == Wit("collect_after_rem")
